@@ -42,6 +42,10 @@ type intrEv struct {
 	Type   int   `json:"type"`
 	Data   []int `json:"data"`
 	Long   bool  `json:"long,omitempty"` // data of 65537 bytes (contents = Data repeated)
+	// AtAccess > 0: in the wrapped run the request is raised by the memory itself (a memory-mapped interrupt
+	// controller) at the AtAccess-th memory access of Step AtStep - possibly in the middle of the acknowledge
+	// of another request; in the unwrapped run it is set before that Step like the others
+	AtAccess int `json:"at_access,omitempty"`
 }
 
 type totalCase struct {
@@ -65,14 +69,26 @@ type cntMem struct {
 	inner  z80.Memory
 	reads  []uint16
 	writes int
+	n      int    // accesses in this Step
+	fireAt int    // call fire at this access
+	fire   func() // device callback
+}
+
+func (c *cntMem) tick() {
+	c.n++
+	if c.n == c.fireAt && c.fire != nil {
+		c.fire()
+	}
 }
 
 func (c *cntMem) Get(a uint16) uint8 {
 	c.reads = append(c.reads, a)
+	c.tick()
 	return c.inner.Get(a)
 }
 func (c *cntMem) Set(a uint16, v uint8) {
 	c.writes++
+	c.tick()
 	c.inner.Set(a, v)
 }
 
@@ -193,6 +209,7 @@ type totalOutcome struct {
 	shortAcc bool
 	intr     int
 	wrapPfx  bool
+	byDevice int // requests raised by the memory during a Step
 }
 
 // stepBudget: a Step normally takes nanoseconds; one that has not returned after this long never will
@@ -253,9 +270,16 @@ func runTotalInner(c *totalCase, wrap bool, at *int64) totalOutcome {
 	}
 	haltedAt := -1
 	for s := 0; s < steps; s++ {
+		if cm != nil {
+			cm.n, cm.fireAt, cm.fire = 0, 0, nil
+		}
 		for i := range c.Intr {
 			if c.Intr[i].AtStep == s {
-				cpu.Interrupt = mkIntr(&c.Intr[i])
+				if ev := &c.Intr[i]; ev.AtAccess > 0 && cm != nil {
+					cm.fireAt, cm.fire = ev.AtAccess, func() { cpu.Interrupt = mkIntr(ev); o.byDevice++ }
+				} else {
+					cpu.Interrupt = mkIntr(&c.Intr[i])
+				}
 				o.intr++
 			}
 		}
@@ -325,8 +349,8 @@ func runTotalInner(c *totalCase, wrap bool, at *int64) totalOutcome {
 		// raised before the first Step (it may stay pending for ever: Run must still stop at the HALT)
 		onlyAtStart := true
 		for i := range c.Intr {
-			if c.Intr[i].AtStep != 0 {
-				onlyAtStart = false
+			if c.Intr[i].AtStep != 0 || (wrap && c.Intr[i].AtAccess > 0) {
+				onlyAtStart = false // (nor can a request raised by the memory in the middle of a given Step be scheduled under Run)
 			}
 		}
 		if onlyAtStart {
@@ -483,6 +507,9 @@ func decode(data []byte) totalCase {
 		default:
 			ev.Type = int(int8(t))
 		}
+		if t>>4&3 == 3 {
+			ev.AtAccess = 1 + int(t>>6)
+		}
 		dl := int(r.u8()) % 10
 		if dl == 9 {
 			ev.Long = true
@@ -578,6 +605,9 @@ func account(col *stats.Collector, c *totalCase, o *totalOutcome, h uint64) {
 		col.Label("with-interrupt")
 		nt = true
 	}
+	if o.byDevice > 0 {
+		col.Label("request-raised-by-memory-during-step")
+	}
 	if o.ranRun {
 		col.Label("halts->Run-checked")
 		if o.intr > 0 {
@@ -639,8 +669,8 @@ func TestC12(t *testing.T) {
 		}
 	}()
 	col.Rule = "deterministic prefix sweep (every byte after CB, ED, DD, FD, DD CB d, FD CB d x memory kind {64 KiB, short DumbMemory, MapMemory} x IO kind {nil, short DumbIO, device} x PC in {0x0100, 0xFFFC..0xFFFF}), " +
-		"hostile seed corpus, then rapid-generated byte strings decoded into (registers, any IM, PC/SP anywhere, memory kind and length biased to the addresses in use +-1, IO kind and length, program bytes at PC and at 0xFFF0.., " +
-		"interrupt schedule with any Type and data of 0..8 or 65537 bytes); up to 64 Steps under recover; oracle = no panic, an opcode logged as invalid changes only PC and R, reads only its own bytes and advances PC by exactly that many, " +
+		"acknowledge sweep (IM in {0,1,2,3,-1,255} x first request {NMI, maskable with no / vector / RST / CALL data} x second request raised by the memory itself at its 1st..4th access of the acknowledging Step x PC {0x0100, 0xFFFF} x IFF1), hostile seed corpus, then rapid-generated byte strings decoded into (registers, any IM, PC/SP anywhere, memory kind and length biased to the addresses in use +-1, IO kind and length, program bytes at PC and at 0xFFF0.., " +
+		"interrupt schedule with any Type and data of 0..8 or 65537 bytes, a quarter of the requests raised by the memory during a Step instead of between Steps); up to 64 Steps under recover; oracle = no panic, an opcode logged as invalid changes only PC and R, reads only its own bytes and advances PC by exactly that many, " +
 		"a program seen to halt makes Run return with the same state; non-trivial = executes an invalid encoding, a prefix sequence cut at 0xFFFF, PC/SP beyond a short memory, or an interrupt; distinct by hash(bytes)"
 	// prefix sweep
 	for _, pfx := range [][]int{{0xCB}, {0xED}, {0xDD}, {0xFD}, {0xDD, 0xCB, 0x05}, {0xFD, 0xCB, 0xFB}} {
@@ -662,6 +692,29 @@ func TestC12(t *testing.T) {
 		}
 	}
 	col.Label("prefix-sweep-complete")
+	// acknowledge sweep: while a request is being acknowledged (or refused), the memory raises another one at its
+	// 1st..4th access of that Step
+	for _, im := range []int{0, 1, 2, 3, -1, 255} {
+		for fi, first := range []intrEv{{Type: 0}, {Type: 1}, {Type: 1, Data: []int{0x10}}, {Type: 1, Data: []int{0xC7}}, {Type: 1, Data: []int{0xCD, 0x00, 0x20}}} {
+			for si, second := range []intrEv{{Type: 0}, {Type: 1}, {Type: 1, Data: []int{}}, {Type: 1, Data: []int{0xFF}}, {Type: 7}} {
+				for at := 1; at <= 4; at++ {
+					for _, pc := range []uint16{0x0100, 0xFFFF} {
+						for iff := 0; iff < 2; iff++ {
+							second.AtAccess = at
+							c := totalCase{PC: pc, SP: 0x8000, IR: 0x4000, IM: im, IFF1: iff == 1, MemKind: 0, IOKind: 2, Steps: 4, Fill: 0x00, Intr: []intrEv{first, second}}
+							o := runTotal(&c)
+							if o.msg != "" {
+								writeViolation(c, o.msg)
+								t.Fatalf("VIOLATION-CANDIDATE C12 %s", o.msg)
+							}
+							account(col, &c, &o, stats.Hash(0xAC, uint64(im+1), uint64(fi), uint64(si), uint64(at), uint64(pc), uint64(iff)))
+						}
+					}
+				}
+			}
+		}
+	}
+	col.Label("acknowledge-sweep-complete")
 	for i, s := range seedCorpus() {
 		c := decode(s)
 		o := runTotal(&c)
